@@ -321,7 +321,10 @@ class Enumerator:
             if isinstance(op, ast.Is) and isinstance(b, ast.Constant) \
                     and b.value is None:
                 if isinstance(a, (ast.List, ast.Tuple, ast.Dict, ast.Set,
-                                  ast.JoinedStr)):
+                                  ast.JoinedStr, ast.BinOp, ast.Compare,
+                                  ast.ListComp, ast.SetComp, ast.DictComp,
+                                  ast.GeneratorExp, ast.Lambda)):
+                    # the value of such an expression is never None
                     return False
             if isinstance(op, ast.In) and isinstance(a, ast.Constant) \
                     and isinstance(b, (ast.List, ast.Tuple, ast.Set)) \
